@@ -125,12 +125,59 @@ FrBigQuick == {
   <<"Cosmo.Dc", "array_array">>, <<"HTM.lookup_id", "depth4">> }
 ASSUME FrBigQuick \subseteq FrBig
 
+FrEulerNames == {"coords.eq2gal", "coords.gal2eq", "coords.eq2ec", "coords.ec2eq", "coords.ec2gal", "coords.gal2ec"}
+FrCosmoTwo == {"Cosmo.Dc", "Cosmo.Dm", "Cosmo.Da", "Cosmo.Dl", "Cosmo.V", "Cosmo.Ezinv_integral", "Cosmo.sigmacritinv"}
+
+\* ---- option axes: the option SPACE of an entry point ------------------------------------------------
+\* opts (below) are single named option settings.  The keyword options of an entry point are independent AXES
+\* (units x stomp x dtype; projection x distort x find; ...), each with a default (the first value).  A callee may
+\* guard a private copy by one option and write in place under another: only a COMBINATION of non-default values
+\* on the caller's own representation (base layout: nothing to convert, so nothing forces a copy) shows it.
+\* FrAxVectors: a covering design of strength 2 over the axes - every vector that leaves the default in at most
+\* two axes (hence every pair of values of every two axes; with three axes or fewer: the full product).  Each
+\* vector is an option "ax:v1,v2,.." of the entry point, explored in the base layout of every parameter and in
+\* one layout that forces a conversion (FrAxLayouts).
+FrAx(a, vs) == [ax |-> a, vals |-> vs]
+FrOnOff(a)  == FrAx(a, <<"off", "on">>)
+FrAxProj    == FrAx("proj", <<"tan", "tpv", "sip">>)
+FrAxDtype   == FrAx("dtype", <<"f8", "f4">>)
+FrOptAxes(name) ==
+    CASE name \in FrEulerNames     -> <<FrOnOff("b1950"), FrAxDtype>>
+      [] name = "coords.euler"     -> <<FrAx("select", <<"1", "2", "3", "4", "5", "6">>), FrOnOff("b1950"), FrAxDtype>>
+      [] name = "coords.eq2xyz"    -> <<FrAx("units", <<"deg", "rad">>), FrOnOff("stomp"), FrAxDtype>>
+      [] name = "coords.xyz2eq"    -> <<FrAx("units", <<"deg", "rad">>), FrOnOff("stomp")>>
+      [] name \in {"coords.shiftlon", "coords.shiftra"} -> <<FrAx("shift", <<"none", "pos", "neg">>), FrAx("wrap", <<"on", "off">>)>>
+      [] name = "WCS.image2sky"    -> <<FrAxProj, FrAx("distort", <<"on", "off">>)>>
+      [] name = "WCS.sky2image"    -> <<FrAxProj, FrAx("distort", <<"on", "off">>), FrAx("find", <<"on", "off">>)>>
+      [] name = "WCS.get_jacobian" -> <<FrAxProj, FrAx("distort", <<"on", "off">>), FrAx("step", <<"1", "half">>)>>
+      [] name = "WCS.Distort"      -> <<FrAxProj, FrOnOff("inverse")>>
+      [] name = "WCS.Rotate"       -> <<FrOnOff("reverse"), FrOnOff("origin")>>
+      [] name = "stat.wmom"        -> <<FrAx("inputmean", <<"none", "given">>), FrOnOff("calcerr"), FrOnOff("sdev")>>
+      [] name \in {"stat.sigma_clip", "stat.sigma_clip+weights"} ->
+             <<FrAx("nsig", <<"4", "1">>), FrAx("niter", <<"4", "1">>), FrOnOff("get_err"), FrOnOff("get_indices")>>
+      [] name \in {"stat.get_stats", "stat.get_stats+weights"} -> <<FrAx("nsig", <<"none", "2">>), FrOnOff("doprint")>>
+      [] name \in {"stat.histogram", "stat.histogram+weights"} ->
+             <<FrAx("bins", <<"binsize", "nbin", "nperbin">>), FrAx("range", <<"data", "minmax">>), FrOnOff("rev"), FrOnOff("more")>>
+      [] name \in FrCosmoTwo       -> <<FrAx("form", <<"aa", "as", "sa">>), FrAx("curv", <<"flat", "curved">>)>>
+      [] name = "HTM.match"        -> <<FrAx("maxmatch", <<"1", "0", "2">>), FrOnOff("file"), FrAx("radius", <<"array", "scalar">>)>>
+      [] OTHER -> <<>>
+FrAxOff(ax, v) == Cardinality({i \in DOMAIN ax : v[i] # ax[i].vals[1]})
+FrAxVectors(ax) ==
+    IF ax = <<>> THEN {}
+    ELSE {v \in [DOMAIN ax -> UNION {VRange(ax[i].vals) : i \in DOMAIN ax}] :
+            /\ \A i \in DOMAIN ax : v[i] \in VRange(ax[i].vals)
+            /\ (Len(ax) <= 3 \/ FrAxOff(ax, v) <= 2)}
+FrAxName(v) == "ax:" \o v[1] \o (IF Len(v) >= 2 THEN "," \o v[2] ELSE "") \o (IF Len(v) >= 3 THEN "," \o v[3] ELSE "")
+                     \o (IF Len(v) >= 4 THEN "," \o v[4] ELSE "")
+FrAxOpts(name) == {FrAxName(v) : v \in FrAxVectors(FrOptAxes(name))}
+
 FrC(name, fam, path, params, ndims, opts, text) ==
     [name |-> name, fam |-> fam, path |-> path, params |-> params, ndims |-> ndims, opts |-> opts, text |-> text,
      rejopts |-> {o \in opts : <<name, o>> \in FrRejOpts},
      rejvals |-> {pv \in {"arr1", "arr2"} \X FrVals : <<name, pv[1], pv[2]>> \in FrRejVals},
      samesize |-> name \in FrSameSize,
-     big |-> {o \in opts : <<name, o>> \in FrBig}, bigq |-> {o \in opts : <<name, o>> \in FrBigQuick}]
+     big |-> {o \in opts : <<name, o>> \in FrBig}, bigq |-> {o \in opts : <<name, o>> \in FrBigQuick},
+     axes |-> FrOptAxes(name), axopts |-> FrAxOpts(name)]
 
 Tbl(p)      == FrP(p, "table", TBL, "tbl")
 Lon(p)      == FrP(p, "lon", NUM, "f8")
@@ -210,7 +257,6 @@ FrStats == {
   FrC("stat.cor2cov",    "stats", "alias_read", <<FrP("cor", "cor", FLT, "f8"), FrP("diagerr", "diagerr", NUM, "f8")>>, {2}, {"default"}, {}),
   FrC("stat.boxcar_average", "stats", "alias_read", <<Dat("x")>>, {1}, {"n2", "n3"}, {}) }
 
-FrEulerNames == {"coords.eq2gal", "coords.gal2eq", "coords.eq2ec", "coords.ec2eq", "coords.ec2gal", "coords.gal2ec"}
 FrCoords ==
   {FrC(n, "coords", "copy", <<Lon("lon"), Lat("lat")>>, {0, 1, 2}, {"j2000", "b1950", "dtype_f4"}, {}) : n \in FrEulerNames} \cup {
   FrC("coords.euler",   "coords", "copy", <<Lon("ai"), Lat("bi")>>, {0, 1, 2}, {"select1", "select2", "select3", "select4", "select5", "select6", "reject_select7"}, {}),
@@ -242,7 +288,6 @@ FrWcs == {
       {"tan", "tpv", "sip", "tpv_inverse", "sip_inverse"}, {}),
   FrC("wcsutil.wrap_ra_diff", "wcs", "wrap", <<FrP("dra", "dlon", NUM, "f8")>>, {0, 1, 2}, {"default"}, {}) }
 
-FrCosmoTwo == {"Cosmo.Dc", "Cosmo.Dm", "Cosmo.Da", "Cosmo.Dl", "Cosmo.V", "Cosmo.Ezinv_integral", "Cosmo.sigmacritinv"}
 FrCosmoOne == {"Cosmo.dV", "Cosmo.distmod", "Cosmo.Ez_inverse"}
 FrCosmo ==
   {FrC(n, "cosmo", "alias_read", <<Z("zmin", "zlo"), Z("zmax", "zhi")>>, {0, 1, 2},
@@ -379,7 +424,13 @@ FrExpectReject(c, opt, val, size) ==
     \/ \E i \in DOMAIN c.params : <<c.params[i].p, val[i]>> \in c.rejvals
     \/ c.samesize /\ (c.fam = "cosmo" => opt \in {"array_array", "array_array_curved"}) /\ \E i, j \in DOMAIN c.params : FrCount(val[i], size[i]) # FrCount(val[j], size[j])
 
+\* an option vector: every parameter in its base layout (the caller's own representation) and all of them in one
+\* layout that forces a conversion; ordinary values
+FrAxVec(c, opt) == CHOOSE v \in FrAxVectors(c.axes) : FrAxName(v) = opt
+FrAllBase(c) == [i \in DOMAIN c.params |-> FrBase(c.params[i])]
+FrAxLayouts(c, nd) == {FrAllBase(c), [i \in DOMAIN c.params |-> FrAdapt(c.params[i], "swapped", "strided")]}
 FrAssignments(c, nd, opt, Pairwise, ValNDims) ==
+    IF opt \in c.axopts THEN {[lay |-> l, val |-> FrAllOrd(c), size |-> FrAllSmall(c)] : l \in FrAxLayouts(c, nd)} ELSE
     \* (quick: an option that ends in a documented rejection whatever the data is run in the uniform layouts only)
     {[lay |-> l, val |-> FrAllOrd(c), size |-> FrAllSmall(c)]
      : l \in IF opt \in c.rejopts /\ ~Pairwise THEN FrUniform(c, nd) ELSE FrLayAssignments(c, nd, Pairwise)} \cup
@@ -409,13 +460,22 @@ FrFrameFailing(c, pre, post) ==
 \*   -360..360) contain one outside [-180, 180] in every class except "all equal" (10.5) and "empty".
 FrNeedsNative(c, opt, l) == c.path = "view_native" /\ opt \in c.text /\ l.order = "swapped"
 FrNeedsWrap(c, v) == c.path = "wrap" /\ v \notin {"equal", "empty"}
-FrAcquire(c, opt, l, FixedTextWrite, FixedWrap) ==     \* "alias" or "copy": what the callee works on
-    IF c.path = "copy" THEN "copy"
+\*   path "copy" with option axes (coords.eq2xyz: units x stomp): the callee converts units in place under the
+\*   default of its first axis and applies another in-place step under a non-default value of its second axis
+\*   FixedOptCopy = TRUE  : the private copy is made whatever the options (the code as it is);
+\*   FixedOptCopy = FALSE : the copy is made only where the first axis has its default ("that is where we write") -
+\*                          the write under the second axis then lands in the caller's array when nothing had to be
+\*                          converted (base layout): a violation that needs the PAIR of option values.
+FrOptAliased(c, opt, l) == opt \in c.axopts /\ Len(c.axes) >= 2 /\ FrAxVec(c, opt)[1] # c.axes[1].vals[1]
+                           /\ l = [order |-> "native", contig |-> "c", kind |-> "f8"]
+FrAcquire(c, opt, l, FixedTextWrite, FixedWrap, FixedOptCopy) ==     \* "alias" or "copy": what the callee works on
+    IF c.path = "copy" THEN (IF ~FixedOptCopy /\ FrOptAliased(c, opt, l) THEN "alias" ELSE "copy")
     ELSE IF c.path = "wrap" THEN (IF FixedWrap THEN "copy" ELSE "alias")
     ELSE IF c.path = "alias_read" THEN (IF l = [order |-> "native", contig |-> "c", kind |-> l.kind] THEN "alias" ELSE "copy")
     ELSE IF FixedTextWrite /\ FrNeedsNative(c, opt, l) THEN "copy" ELSE "alias"
 FrWritesWork(c, opt, l, v) ==                          \* does the callee write into what it works on?
-    IF c.path = "copy" THEN TRUE                       \* in-place unit conversion etc. on its own copy
+    IF c.path = "copy" THEN (IF opt \in c.axopts /\ Len(c.axes) >= 2  \* in-place unit conversion etc. on what it holds
+                             THEN FrAxVec(c, opt)[1] = c.axes[1].vals[1] \/ FrAxVec(c, opt)[2] # c.axes[2].vals[1] ELSE TRUE)
     ELSE IF c.path = "wrap" THEN FrNeedsWrap(c, v)     \* data dependent
     ELSE IF c.path = "alias_read" THEN FALSE
     ELSE FrNeedsNative(c, opt, l)                      \* byteswap(True) + dtype flip
